@@ -456,7 +456,18 @@ def discharge(F, sites, envs):
     # every input length of a dense range and every combination of abstract outcomes without any of them going out of range
     evaluated = None
     wev = {}
+    rbin = [None]
     for s in sites:
+        # the array parser TryFrom<&[u8; N]> replayed by rmodel (input length fixed by the type, every variant, every validity outcome):
+        # its window operations, conversions of windows to arrays and their unwraps cannot fail on any evaluated path
+        if s.body.path.endswith("core::convert::TryFrom<&[u8; SIZE_IN_BYTES]>>::try_from") and "hash::inner::FuzzyHash<" in s.body.path and \
+                (s.kind in ("index", "unwrap", "panic") or s.kind.startswith("assert:bounds") or (s.kind == "call" and s.what in ("index", "split_at", "split_first"))):
+            if rbin[0] is None:
+                RB = layout.binary_reader_evaluated(F)
+                rbin[0] = bool(RB is not None and RB["body"].path == s.body.path and not any("panic" in x for x in RB["bad"]))
+            if rbin[0]:
+                s.idioms.add("no-failure-on-any-evaluated-path-of-the-array-parser")
+                continue
         # window operations and whole-part copies of the two serializers, when the evaluation-based writer model (wmodel) replayed
         # them for every buffer length 0..N+1100, every variant and prefix mode without leaving a view or mismatching a copy length
         if s.kind in ("index", "call") and s.what in ("index", "index_mut", "split_at", "split_at_mut", "copy_from_slice") and "hash::inner::FuzzyHash<" in s.body.path \
